@@ -12,7 +12,7 @@ func longDispatch(prog []int, leaf func()) int {
 		leaf()
 		return 0
 	}
-	switch prog[0] % 5 {
+	switch prog[0] % 6 {
 	case 0:
 		return L60_VeryLongFunctionNameSegmentForStackCounterTruncationTest(prog[1], prog[2:], leaf)
 	case 1:
@@ -23,6 +23,8 @@ func longDispatch(prog []int, leaf func()) int {
 		return L250_VeryLongFunctionNameSegmentForStackCounterTruncationTestsVeryLongFunctionNameSegmentForStackCounterTruncationTestsVeryLongFunctionNameSegmentForStackCounterTruncationTestsVeryLongFunctionNameSegmentForStackCounterTruncationTestsVeryLongFunctionN(prog[1], prog[2:], leaf)
 	case 4:
 		return L300_VeryLongFunctionNameSegmentForStackCounterTruncationTestsVeryLongFunctionNameSegmentForStackCounterTruncationTestsVeryLongFunctionNameSegmentForStackCounterTruncationTestsVeryLongFunctionNameSegmentForStackCounterTruncationTestsVeryLongFunctionNameSegmentForStackCounterTruncationTestsVeryLongFu(prog[1], prog[2:], leaf)
+	case 5:
+		return L400u_世界你好Ωμέγα世界你好Ωμέγα世界你好Ωμέγα世界你好Ωμέγα世界你好Ωμέγα世界你好Ωμέγα世界你好Ωμέγα世界你好Ωμέγα世界你好Ωμέγα世界你好Ωμέγα世界你好Ωμέγα世界你好Ωμέγα世界你好Ωμέγα世界你好Ωμέγα世界你好Ωμέγα世界你好Ωμέγα世界你好Ωμ(prog[1], prog[2:], leaf)
 	}
 	return 0
 }
@@ -63,6 +65,14 @@ func L250_VeryLongFunctionNameSegmentForStackCounterTruncationTestsVeryLongFunct
 func L300_VeryLongFunctionNameSegmentForStackCounterTruncationTestsVeryLongFunctionNameSegmentForStackCounterTruncationTestsVeryLongFunctionNameSegmentForStackCounterTruncationTestsVeryLongFunctionNameSegmentForStackCounterTruncationTestsVeryLongFunctionNameSegmentForStackCounterTruncationTestsVeryLongFu(k int, rest []int, leaf func()) int {
 	if k > 1 {
 		return L300_VeryLongFunctionNameSegmentForStackCounterTruncationTestsVeryLongFunctionNameSegmentForStackCounterTruncationTestsVeryLongFunctionNameSegmentForStackCounterTruncationTestsVeryLongFunctionNameSegmentForStackCounterTruncationTestsVeryLongFunctionNameSegmentForStackCounterTruncationTestsVeryLongFu(k-1, rest, leaf) + 1
+	}
+	return longDispatch(rest, leaf) + 1
+}
+
+//go:noinline
+func L400u_世界你好Ωμέγα世界你好Ωμέγα世界你好Ωμέγα世界你好Ωμέγα世界你好Ωμέγα世界你好Ωμέγα世界你好Ωμέγα世界你好Ωμέγα世界你好Ωμέγα世界你好Ωμέγα世界你好Ωμέγα世界你好Ωμέγα世界你好Ωμέγα世界你好Ωμέγα世界你好Ωμέγα世界你好Ωμέγα世界你好Ωμ(k int, rest []int, leaf func()) int {
+	if k > 1 {
+		return L400u_世界你好Ωμέγα世界你好Ωμέγα世界你好Ωμέγα世界你好Ωμέγα世界你好Ωμέγα世界你好Ωμέγα世界你好Ωμέγα世界你好Ωμέγα世界你好Ωμέγα世界你好Ωμέγα世界你好Ωμέγα世界你好Ωμέγα世界你好Ωμέγα世界你好Ωμέγα世界你好Ωμέγα世界你好Ωμέγα世界你好Ωμ(k-1, rest, leaf) + 1
 	}
 	return longDispatch(rest, leaf) + 1
 }
